@@ -161,21 +161,37 @@ func probe(dis *insts.Disassembler, buf []byte) (e Entry, ok bool) {
 	}, true
 }
 
-// ByFormat groups SupportedOpcodes by format.
+var (
+	indexOnce sync.Once
+	byFormat  map[isaenc.Format][]Entry
+	byKey     map[key]Entry
+)
+
+type key struct {
+	f  isaenc.Format
+	op int
+}
+
+func buildIndex() {
+	indexOnce.Do(func() {
+		byFormat = map[isaenc.Format][]Entry{}
+		byKey = map[key]Entry{}
+		for _, e := range SupportedOpcodes() {
+			byFormat[e.Format] = append(byFormat[e.Format], e)
+			byKey[key{e.Format, e.Opcode}] = e
+		}
+	})
+}
+
+// ByFormat groups SupportedOpcodes by format (shared map: do not modify).
 func ByFormat() map[isaenc.Format][]Entry {
-	out := map[isaenc.Format][]Entry{}
-	for _, e := range SupportedOpcodes() {
-		out[e.Format] = append(out[e.Format], e)
-	}
-	return out
+	buildIndex()
+	return byFormat
 }
 
 // Lookup returns the entry of (format, opcode), if the decoder lists it.
 func Lookup(f isaenc.Format, op int) (Entry, bool) {
-	for _, e := range SupportedOpcodes() {
-		if e.Format == f && e.Opcode == op {
-			return e, true
-		}
-	}
-	return Entry{}, false
+	buildIndex()
+	e, ok := byKey[key{f, op}]
+	return e, ok
 }
